@@ -86,7 +86,14 @@ func c07Hooks(level int) limHooks {
 			prev := start
 			best := start
 			probeLimited := cfg.algo == "gradient" && cfg.probe > 0 && cfg.probe*cfg.queueAt(cfg.max) <= cfg.max
+			raised := false
 			for i := 0; i < n; i++ {
+				if cfg.algo == "gradient" && cfg.probe >= 2 && i == 2*cfg.probe+2 && !raised && start < target {
+					// probes are at least one probe interval apart, so among any 2 x interval + 2 healthy
+					// samples some are ordinary ones and must have raised the estimate: otherwise the state is stuck
+					t.Fail("gradient/stuck", "%d saturated drop-free samples at rtt=%d never raised the estimate above %d (ceiling %d, probe interval %d)", i, rtt, start, cfg.ceiling(0), cfg.probe)
+					return
+				}
 				infl := 2*cfg.ceiling(0) + 1
 				if pm := li.apply(sample{rtt: rtt, inflight: infl}); pm != "" {
 					t.Fail(cfg.algo+"/panic", "healthy run panicked: %s", pm)
@@ -105,6 +112,9 @@ func c07Hooks(level int) limHooks {
 					}
 				} else if cfg.algo == "gradient" && cur < prev+cfg.queueAt(prev) && cur < cfg.max {
 					t.Fail("gradient/healthy-increment", "healthy saturated sample moved the estimate %d -> %d, expected at least +%d (queue allowance) up to the ceiling %d", prev, cur, cfg.queueAt(prev), cfg.max)
+				}
+				if cur > prev {
+					raised = true
 				}
 				if cur > best {
 					best = cur
